@@ -206,6 +206,8 @@ impl AccessQuad for QVector {
 
         let line = i >> 8;
         let pos_in_last_line = i & 255;
+        #[cfg(qwt_verif)]
+        crate::verif::idx("qv.line", line, self.data.len());
         let line = self.data.get_unchecked(line);
 
         line.get_unchecked(pos_in_last_line)
